@@ -165,6 +165,9 @@ func oracle(w *envsim.World, hist []int) (viol []vrt.Violation) {
 				// first event of a new run: announces the number just assigned; verified against probes below
 				continue
 			}
+			if cur != nil && !cur.open && !isStart {
+				fail("run-event-after-run-ended:"+od.event, "event %s (run %s) published although run %s is over", r.ID, v["rn"], cur.n)
+			}
 			if cur != nil && cur.open && v["rn"] != cur.n {
 				fail("run-event-number-mismatch:"+od.event, "event %s carries run %s, current run is %s", r.ID, v["rn"], cur.n)
 			}
@@ -206,6 +209,15 @@ func oracle(w *envsim.World, hist []int) (viol []vrt.Violation) {
 			}
 			cur = &run{n: n, sosor: v["run_start_time_ms"], seen: map[string]string{}, open: true, startOp: od.name}
 		}
+		if cur != nil && !cur.open && r.Kind != "runevt" {
+			// the run is over: whatever happens next (until a new run is given its number) must not
+			// touch the stamps of the finished run - each is set at most / exactly once per run
+			for _, s := range stamps {
+				if old, ok := cur.seen[s]; ok && v[s] != old {
+					fail("stamp-changed-after-run-ended:"+s+":"+od.event, "at %s:%s %s is %q, the finished run %s had %q", r.Kind, r.ID, s, v[s], cur.n, old)
+				}
+			}
+		}
 		if cur == nil || !cur.open {
 			continue
 		}
@@ -246,12 +258,18 @@ func oracle(w *envsim.World, hist []int) (viol []vrt.Violation) {
 						fail("stamp-missing-after-stop:"+s, "after %s: %v", od.name, v)
 					}
 				}
+				for _, s := range stamps {
+					cur.seen[s] = v[s]
+				}
 				cur.open = false
 			case od.event == "GO_ERROR" && st == "ERROR" && cur.running:
 				for _, s := range stamps[2:] {
 					if v[s] == "" {
 						fail("end-stamp-missing-after-error:"+s, "run %s ended by GO_ERROR: %v", cur.n, v)
 					}
+				}
+				for _, s := range stamps {
+					cur.seen[s] = v[s]
 				}
 				cur.open = false
 			case od.event == "GO_ERROR" && st == "ERROR":
